@@ -442,3 +442,25 @@ class FsmOnProcessStateEvent:
 
     def post_discipline(self, old):
         return reentrancy_discipline(old)
+
+
+# ---- from the rules work (C18)
+@contract('supervisordata:SupervisorData.autorestart', props=[])
+class SupervisorDataAutorestart:
+    """reads Supervisor's own process configuration; KeyError when the namespec is unknown to the local Supervisor"""
+    assumed = True
+    raises = ('KeyError',)
+    returns = 'bool'
+
+    def modifies(self):
+        return []
+
+
+@contract('supervisordata:SupervisorData.disable_autorestart', props=[])
+class SupervisorDataDisableAutorestart:
+    """touches Supervisor's own process configuration only; KeyError when the namespec is unknown"""
+    assumed = True
+    raises = ('KeyError',)
+
+    def modifies(self):
+        return []
